@@ -53,7 +53,7 @@ def run(ctx):
     # faults at the listener (FaultCases.tla, ListenerFaults): clients that come afterwards are served
     out = ctx.run_vh(binp, ["c12-accept"], timeout=600)
     out, crashed = ctx.nocrash(out, "C12:crash:accept-fault")
-    if not crashed and len(out) != 3:
+    if not crashed and len(out) != 2:
         raise vlib.Infra("c12-accept: %d results" % len(out))
     for r in out:
         ctx.evaluations += 1
